@@ -430,6 +430,22 @@ func runC02(c *core.Ctx) {
 			}
 			try(append(append([]int{}, all...), 0), "extended-by-first", "type5_valid_proof_permuted_rejected")
 		}
+		// the identity element (32 zero bytes: a VALID encoding) in every slot, with the honest proof: refused, and not
+		// "accepted" with a nil result
+		for slot := 0; slot < nb; slot++ {
+			es := append([][]byte{}, elems...)
+			es[slot] = make([]byte, 32)
+			c02Call(c, p.st, build(es, proof), fmt.Sprintf("identity-element#%d", slot), true)
+			c.Class("type5_identity_element_rejected")
+		}
+		{
+			es := make([][]byte, nb)
+			for j := range es {
+				es[j] = make([]byte, 32)
+			}
+			c02Call(c, p.st, build(es, proof), "all-identity-elements", true)
+			c02Call(c, p.st, build(es, make([]byte, 64)), "all-identity-elements-zero-proof", true)
+		}
 		// an element that is not a group-element encoding, in every slot, with (a) the honest proof and (b) a proof a
 		// malicious key holder forges with the verifier's own arithmetic on what the decoder leaves behind
 		for slot := 0; slot < nb; slot++ {
